@@ -362,6 +362,27 @@ def _split_items(text):
     return items
 
 
+def items_between(block_sl, after_re, before_re, name=None):
+    """The statements of a braced block that lie strictly between the unique item whose text matches after_re and the unique later
+    item whose text matches before_re (items as split by _split_items: simple statements and `header { body }` compounds).  Anchoring
+    on the NEIGHBOURS keeps the extraction alive when the statements in between are rewritten."""
+    t = block_sl.text.strip()
+    inner = t[1:match_close(t, 0)] if t.startswith("{") else t
+    items = _split_items(inner)
+    def txt(it):
+        return it[1] + ("{" + it[2] + "}" if it[0] == 'compound' else "")
+    ia = [k for k, it in enumerate(items) if re.search(after_re, strip_comments(txt(it)).strip())]
+    ib = [k for k, it in enumerate(items) if re.search(before_re, strip_comments(txt(it)).strip())]
+    if len(ia) != 1 or len(ib) != 1 or ib[0] <= ia[0]:
+        raise Undecided("items_between(%s): expected one item matching %r followed by one matching %r, found %d/%d" % (block_sl.name, after_re, before_re, len(ia), len(ib)))
+    frag = "".join(("\n" + txt(it) + "\n") if it[0] == 'pp' else txt(it) for it in items[ia[0] + 1:ib[0]])
+    if re.search(r'\b(return|goto|break|continue)\b', strip_comments(frag)):
+        raise Undecided("items_between(%s): the fragment contains return/goto/break/continue" % block_sl.name)
+    s = Slice(name or block_sl.name + ":between", block_sl.rel, frag, block_sl.line, kind="middle-fragment")
+    s.n_items = ib[0] - ia[0] - 1
+    return s
+
+
 def project_statements(sl, keep_re, name=None):
     """Projection fragment: the function with every simple statement that does NOT match keep_re removed; a compound
     statement survives iff something inside it survives (its header is kept verbatim).  What is dropped: all other
